@@ -115,6 +115,106 @@ def rule_fold_sites(cx, prefix):
             r.fail(f"{q}/env-read[{kt}]", (pm, n), f"`{stmt_key(par if isinstance(par, ast.stmt) else n)}` reads `{kt}` from the constant environment; the value found there was bound flow-insensitively (another branch, an earlier loop pass) and is baked into the firmware")
 
 
+_LCD_FNS = {}
+
+
+def _same_device_trace(text_a, text_b) -> bool:
+    """both sketches' setup() bodies, evaluated with C semantics (helper templates entered, Arduino calls recorded), perform
+    the same sequence of calls with the same arguments; False when they differ or when equivalence cannot be shown"""
+    import re as _re
+    from .. import ckern, l2
+    from . import c17
+    if not _LCD_FNS:
+        fns_, _names = c17.helper_functions(mod("transpile/emitter.py"))
+        _LCD_FNS.update(fns_)
+        lcd = lit.table(mod("transpile/emitter.py"), "LCD_HELPER_SNIPPET")
+        m_ = _re.search(r"enum\s+__redu_lcd_align\s*\{([^}]*)\}", lcd)
+        nxt = 0
+        for item in [x.strip() for x in (m_.group(1) if m_ else "").split(",") if x.strip()]:
+            nm, _, val = item.partition("=")
+            nxt = int(val) if val.strip() else nxt
+            _LCD_FNS.setdefault("@enum", {})[nm.strip()] = nxt
+            nxt += 1
+    traces = []
+    for text in (text_a, text_b):
+        try:
+            fns = l2.functions_of(text, ["setup"])
+            g = l2.global_decls(text)
+        except Exception:
+            return False
+        env, types = dict(_LCD_FNS.get("@enum", {})), {}
+        for n_, (ty, init) in g.items():
+            types[n_] = ty
+            if ty.replace("const ", "") not in ("int", "long", "unsigned long", "unsigned int", "float", "double", "bool", "String", "uint8_t", "byte", "size_t"):
+                env[n_] = 0       # a device object (LiquidCrystal, Servo): only its method calls matter, they are recorded
+                continue
+            txt = (init or "0").strip()
+            while True:
+                mm = _re.fullmatch(r"static_cast<[\w\s]+>\((.*)\)", txt) or _re.fullmatch(r"\((.*)\)", txt)
+                if not mm:
+                    break
+                txt = mm.group(1).strip()
+            try:
+                env[n_] = txt.strip('"') if ty == "String" else 1 if txt == "true" else 0 if txt == "false" else float(txt.rstrip("fUL")) if ("." in txt or "e" in txt.lower()) else int(txt.rstrip("UL"), 0)
+            except Exception:
+                return False        # a global whose initial value the evaluator cannot read: equivalence is not shown
+        k = ckern.CallKern({k_: v_ for k_, v_ in _LCD_FNS.items() if k_ != "@enum"}, env=env, types=types, consts=_LCD_FNS.get("@enum", {}))
+        try:
+            k.block(fns["setup"][0]["body"])
+        except (ckern.KernUnsupported, ckern._Return, ckern._Break, ckern._Continue):
+            return False
+        traces.append(k.events)
+    return traces[0] == traces[1]
+
+
+def rule_literal_uniform(cx, rid):
+    """a literal argument is not special: the firmware for f=0 / f=7 is the firmware for f=<run-time expression> with the
+    expression replaced by the literal (IR classes and emitter arms do not clamp, drop or re-interpret folded values)"""
+    from .. import l2, pe
+    em = mod("transpile/emitter.py")
+    cls, fields = pe.ir_classes()
+    r = cx.rule(rid, "routing a value through a run-time variable does not change the firmware: for every numeric-or-expression IR field the text emitted for the literals 0 and 7 equals the text emitted for a placeholder expression with the literal substituted", floor=80, exhaustive=True)
+    skip = {"Program", "ConditionalBranch", "CatchClause", "FunctionDef", "IfStatement", "WhileLoop", "ForRangeLoop", "TryStatement", "VarDecl", "VarAssign", "ReturnStmt", "BreakStmt", "ExprStmt"}
+    for cname in sorted(cls):
+        dev = l2.device_of(cname)
+        if cname in skip or cname.endswith("Decl"):
+            continue
+        base = next((kw for kw, _n in pe.variants(cname, limit=1)), None)
+        if base is None:
+            continue
+        pre = [l2.lcd_decl("parallel", True)] if dev == "LCD" else [l2.decl_node(dev)] if dev else []
+        for fname, ann, _d in fields[cname]:
+            parts = ann.replace("typing.", "").replace("Optional[", "").replace("Union[", "").replace("]", "").split(", ")
+            if fname == "name" or "int" not in parts or "str" not in parts:
+                continue
+            hole = f"H_{fname}"
+
+            def text_for(v, _c=cname, _f=fname):
+                kw = dict(base)
+                kw[_f] = v
+                try:
+                    res = pe.emit_program(setup=pre + [cls[_c](**kw)], loop=[])
+                except pe.IRRejected:
+                    return None
+                return None if res.raised else res.text
+            th = text_for(hole)
+            for v in (0, 7):
+                tv = text_for(v)
+                if tv is None or th is None:
+                    r.ok(f"{cname}.{fname}={v}: rejected")
+                    continue
+                want = th.replace(hole, str(v))
+                if tv == want:
+                    r.ok(None)
+                elif _same_device_trace(tv, want):
+                    r.ok(f"{cname}.{fname}={v}: text differs, device trace identical (a transpile-time normalisation that mirrors the run-time one)")
+                else:
+                    a_, b_ = tv.split("\n"), want.split("\n")
+                    k = next((i for i, (p_, q_) in enumerate(zip(a_, b_)) if p_ != q_), min(len(a_), len(b_)))
+                    r.fail(f"{cname}.{fname}/literal={v}-same-as-expression", (em, em.func("_emit_block")), f"{cname}({fname}={v}) emits `{(a_[k] if k < len(a_) else '<end>').strip()}` where the run-time form with {v} substituted reads `{(b_[k] if k < len(b_) else '<end>').strip()}`: the literal is clamped/dropped/re-interpreted at transpile time in a way the run-time path is not")
+    return r
+
+
 def list_size_guard_ok(pm) -> bool:
     """re-assignment of a declared list compares the *previously recorded* length with the length of the new value and
     raises on a mismatch; both operands are read before the record is updated"""
@@ -415,6 +515,11 @@ def run(cx):
             r.check(why is None, f"{call_name(c)}.{fld}/fresh-list", (pm, c), f"`{norm(v)}` may be {why}: the node would share the list object tracked for the script's variable, and a later mutation rewrites the value baked for this statement")
     if n_f < 2:
         raise AnalysisError("LedFlashPattern/LCDGlyph constructions not found in the parser")
+
+    # ---- C03-CONTEXT-FREE / C03-LITERAL-UNIFORM --------------------------------------------------
+    from . import c08
+    c08.rule_compositional(cx, "C03-CONTEXT-FREE")
+    rule_literal_uniform(cx, "C03-LITERAL-UNIFORM")
 
     # ---- C03-PER-NODE ------------------------------------------------------------------------
     from .. import l2, pe
